@@ -341,6 +341,67 @@ def run(repo: Repo, chk: Check) -> None:
                what=f'get_big_map_value for {label}: queried on-chain ids {queried}, result {outs}; '
                     + (f'the entries of on-chain big_map {src} must be visible through it' if src is not None else 'nothing may be read from the chain'))
 
+    # ---- 6 attaching a context: EVERY on-chain identifier (0 is one) is registered, only a big_map without identifier gets a temporary one --
+    chk.set_clause('C15.6')
+    ac = repo.func(f'{BM}.attach_context')
+
+    class AttachHooks(Hooks):
+        def inline(self, it, fi):
+            return fi.qualname == ac.qualname
+
+        def call(self, it, callee, args, kwargs, node):
+            if isinstance(callee, App) and callee.op == 'attr' and callee.args[1] in ('register_big_map', 'get_tmp_big_map_id'):
+                it.event('ctx-call', callee.args[1], tuple(args))
+                return Sym('registered' if callee.args[1] == 'register_big_map' else 'tmp', 'int')
+            return NotImplemented
+
+        def attr(self, it, obj, name, node):
+            if isinstance(obj, Sym) and obj.name == 'context' and name in ('tzt',):
+                return False
+            return NotImplemented
+
+    for label, ptr, want in (('on-chain big_map 0', 0, 'register_big_map'), ('on-chain big_map 7', 7, 'register_big_map'), ('a big_map literal (no identifier)', None, 'get_tmp_big_map_id')):
+        bm = Obj(BM, {'ptr': ptr, 'context': None, 'items': [], 'removed_keys': []})
+        res6 = Interp(repo, AttachHooks(), max_depth=2).run_method(ac, lambda bm=bm: (bm, [Sym('context')], {}))
+        calls = sorted({e[1] for p in res6 for e in p.events if isinstance(e, tuple) and e[0] == 'ctx-call'})
+        chk.ob('R-DISPATCH', ac.qualname, bool(res6) and all(p.outcome == 'return' for p in res6) and calls == [want], f'attach_context of {label}: {want}', ac.loc, {'context_calls': calls},
+               what=f'attach_context of {label} calls {calls} instead of {want}: '
+                    + ('the on-chain big_map is treated as a fresh one, its entries are not visible and the diff allocates instead of updating' if ptr is not None else
+                       'a literal is registered as if it lived on chain'))
+
+    # MEM answers from the same lookup as GET: `contains` of a big_map (inherited or not) is decided by `get`, which consults the chain and the removals
+    ct = repo.find_method(BM, 'contains')
+    chk.require(ct is not None, 'BigMapType has no contains')
+
+    class MemHooks(Hooks):
+        def inline(self, it, fi):
+            return fi.qualname == ct.qualname
+
+        def call(self, it, callee, args, kwargs, node):
+            if isinstance(callee, FuncRef) and callee.fi is not None and callee.fi.name == 'get' and callee.fi.cls is not None:
+                it.event('get-called', callee.fi.cls.name)
+                return Sym('lookup')
+            if isinstance(callee, FuncRef) and callee.fi is not None and callee.fi.name == '__iter__':
+                it.event('iterated-local-entries')
+                return [(Sym('k'), Sym('v'))]
+            return NotImplemented
+
+        def iterate(self, it, obj, node):
+            if isinstance(obj, Obj) and obj.cls == BM:
+                it.event('iterated-local-entries')
+                return [(Sym('k'), Sym('v'))]
+            if isinstance(obj, Sym) and obj.name in ('items', 'removed'):
+                it.event('iterated-local-entries')
+                return [(Sym('k'), Sym('v'))] if obj.name == 'items' else [Sym('k')]
+            return NotImplemented
+
+    resm = Interp(repo, MemHooks(), max_depth=2).run_method(ct, lambda: (Obj(BM, {'ptr': 5, 'items': Sym('items'), 'removed_keys': Sym('removed'), 'context': Sym('context')}), [Sym('key')], {}))
+    via_get = bool(resm) and all(any(isinstance(e, tuple) and e[0] == 'get-called' and e[1] == 'BigMapType' for e in p.events) for p in resm if p.outcome == 'return') \
+        and all(p.outcome == 'return' and 'lookup' in vrepr(p.value) for p in resm)
+    chk.ob('R-FLOW', ct.qualname, via_get, 'MEM on a big_map is answered by BigMapType.get (chain + pending updates + removals)', ct.loc,
+           {'outcomes': [(p.outcome, vrepr(p.value)[:80]) for p in resm][:3]},
+           what='BigMapType.contains does not go through BigMapType.get: MEM ignores the entries that live on chain and counts keys removed in this execution as present')
+
     # ---- memory across calls (shared rule, sa/statelint.py) ----------------------------------------------------------------------------------
     chk.set_clause('C15.M')
     from ..statelint import check_memory
